@@ -22,7 +22,7 @@ func HarnessC18Needs(n int, extras bool, narrow bool) {
 	}
 	extraJob, extraKind := -1, 0
 	if extras {
-		extraKind = verifChoose("extra", 4) // 0 none, 1 dangling, 2 duplicate spelling in other case, 3 upper-case reference
+		extraKind = verifChoose("extra", 5) // 0 none, 1 dangling, 2 duplicate spelling in other case, 3 upper-case reference, 4 the same dangling id from two jobs
 		if extraKind != 0 {
 			extraJob = verifChoose("extraJob", n)
 		}
@@ -47,7 +47,7 @@ func HarnessC18Needs(n int, extras bool, narrow bool) {
 		}
 		if i == extraJob {
 			switch extraKind {
-			case 1:
+			case 1, 4:
 				add("zz")
 				dangling[i]++
 			case 2:
@@ -55,6 +55,10 @@ func HarnessC18Needs(n int, extras bool, narrow bool) {
 					add(strings.ToUpper(needs[0].Value))
 				}
 			}
+		}
+		if extraKind == 4 && i == (extraJob+1)%n && i != extraJob {
+			add("ZZ") // a second job refers to the same missing id in another letter case
+			dangling[i]++
 		}
 		jobs[i] = &Job{ID: &String{verifJobIDs[i], false, pos}, Pos: pos, Needs: needs}
 	}
